@@ -244,8 +244,33 @@ def walk_shape(ctx, g):
            "the missing edge has index w[a]: i for an even number of forward steps, j for an odd number" if okk else det)
 
 
+def bound_passthrough(ctx, g):
+    """the size bound and the dimension given to DSets::new reach the search unmodified: the DSetBackTracking handed to the iterator is
+    { dim, max_size } of the two arguments (a bound clamped to >= 1 emits the one-chamber set for bound 0: `at most the given size` fails),
+    and the root of the search is the one-chamber set of that dimension"""
+    ctx.clauses.append("DSets::new hands its dimension and size bound to the search unmodified; the search starts from the one-chamber set (T2)")
+    b = ctx.body("generators::dset_generators::DSets::new")
+    ctx.scan([b])
+    aggs = []
+    for bi, si, s in b.assigns():
+        rv = s["rv"]
+        if rv["k"] == "aggregate" and rv.get("agg") == "adt" and rv.get("adt", "").endswith("DSetBackTracking"):
+            aggs.append([strip(norm(b.origin(o), g)) for o in rv["ops"]])
+    want = [("param", 1, b.debug.get(1, "")), ("param", 2, b.debug.get(2, ""))]
+    ok = aggs == [want]
+    ctx.ob("T2-bound-passthrough", b.name, "DSetBackTracking { dim, max_size }", "ok" if ok else "violation",
+           "the search is configured with the caller's dim and max_size" if ok else
+           "the search is configured with %s, not with the caller's (dim, max_size): the bound / dimension generated for differs from the one asked for" % [[show(x, 1)[:30] for x in a] for a in aggs])
+    rt = ctx.body(BT + "root")
+    news = [[strip(norm(rt.origin(a), g)) for a in t["args"]] for _, t in rt.calls("PartialDSet::new")]
+    okr = news == [[("int", 1), ("field", ("param", 1, rt.debug.get(1, "")), "dim")]]
+    ctx.ob("T2-bound-passthrough", rt.name, "PartialDSet::new(1, self.dim)", "ok" if okr else "violation",
+           "the root is the one-chamber set of the configured dimension" if okr else "the root of the search is not PartialDSet::new(1, self.dim): %s" % [[show(x, 1)[:20] for x in a] for a in news])
+
+
 def run(ctx):
     g = ctx.facts.getters()
+    bound_passthrough(ctx, g)
     ch = ctx.body(BT + "children")
     ex = ctx.body(BT + "extract")
     rt = ctx.body(BT + "root")
